@@ -312,21 +312,74 @@ def job_cell(job):
             while j < len(flat) and not (type(flat[j][0]) is int and type(flat[j][1]) is int and chr(flat[j][1]) == '"'):
                 chunk.append(flat[j])
                 j += 1
+            # Per position, all 95 values are evaluated.  That is a complete decision only if the pieces of position i depend
+            # on character i alone (checked syntactically on the support of the terms).  If they depend on other characters
+            # too (e.g. a prefix test), the other characters are set to the values the guards compare them with (derived from
+            # the terms) and to a seeded baseline; finding no failure is then reported as inconclusive, never as held.
+            names = ['img%d' % i for i in range(img_len)]
+            dependent = False
+            special = {}
+
+            def single_var_conds(t, acc, seen):
+                stack = [t]
+                while stack:
+                    x = stack.pop()
+                    if not isinstance(x, T.Term) or x.id in seen:
+                        continue
+                    seen.add(x.id)
+                    if x.w == 1 and x.op in ('eq', 'lut', 'ult', 'not'):
+                        sup = T.support(x)
+                        if len(sup) == 1:
+                            acc.append((list(sup)[0], x))
+                            continue
+                    stack.extend(x.args)
+            conds = []
+            seen_ids = set()
+            for g, ch in chunk:
+                single_var_conds(g, conds, seen_ids)
+            for nm, cnd in conds:
+                if nm not in names:
+                    continue
+                tv = [k for k in range(95) if T.evaluate(cnd, {nm: k})]
+                if 0 < len(tv) <= 3:
+                    special.setdefault(nm, []).extend(tv)
+            rb = random.Random(seed * 7 + 3)
+            baselines = [{nm: rb.randrange(95) for nm in names}]
+            if special:
+                baselines.append({nm: (special[nm][0] if nm in special else rb.randrange(95)) for nm in names})
             for pos_i in range(img_len):
                 name = 'img%d' % pos_i
                 mine = [(g, ch) for (g, ch) in chunk if name in (T.support(g) | (T.support(ch) if type(ch) is T.Term else set()))]
-                for val0 in range(95):
-                    val = 0x20 + val0
-                    env = {name: val0}
-                    out = []
-                    for g, ch in mine:
-                        gv = g if type(g) is int else T.evaluate(g, env)
-                        if gv:
-                            out.append(chr(ch if type(ch) is int else T.evaluate(ch, env)))
-                    txt = ''.join(out)
-                    okv = html.unescape(txt) == chr(val) and not re.search(r'[<"]|&(?!(amp|lt|gt|quot|apos|#\d+|#x[0-9a-fA-F]+);)', txt)
-                    if not okv and href_fail is None:
-                        href_fail = (pos_i, val, txt)
+                others = set()
+                for g, ch in mine:
+                    others |= T.support(g) | (T.support(ch) if type(ch) is T.Term else set())
+                others.discard(name)
+                if others:
+                    dependent = True
+                for base in (baselines if others else baselines[:1]):
+                    for val0 in range(95):
+                        env = dict(base)
+                        env[name] = val0
+                        for o_ in others:
+                            env.setdefault(o_, 0)
+                        if others:
+                            # whole attribute value under this assignment
+                            pieces_, want = chunk, ''.join(chr(0x20 + env[nm]) for nm in names)
+                        else:
+                            pieces_, want = mine, chr(0x20 + val0)
+                        out = []
+                        cache_ = {}
+                        for g, ch in pieces_:
+                            gv = g if type(g) is int else T.evaluate(g, env, cache_)
+                            if gv:
+                                out.append(chr(ch if type(ch) is int else T.evaluate(ch, env, cache_)))
+                        txt = ''.join(out)
+                        okv = html.unescape(txt) == want and not re.search(r'[<"]|&(?!(amp|lt|gt|quot|apos|#\d+|#x[0-9a-fA-F]+);)', txt)
+                        if not okv and href_fail is None:
+                            href_fail = (pos_i, 0x20 + val0, txt, dict(env))
+            if dependent and href_fail is None:
+                raise Inconclusive('the href pieces of one character depend on other characters of the image string; '
+                                   'un-escaping was evaluated under %d baselines only and found no failure' % len(baselines))
             res['evaluations'] += 95 * img_len
             items.append(('href: every character value of every position is emitted so that un-escaping gives it back (95 printable values x %d positions evaluated)' % img_len,
                           1 if href_fail is None else 0))
@@ -351,6 +404,7 @@ def job_cell(job):
         lab, model = fails[0]
         model = dict(model or {})
         if href_fail is not None and 'href' in lab:
+            model.update({k_: v_ for k_, v_ in href_fail[3].items() if k_.startswith('img')})
             model['img%d' % href_fail[0]] = href_fail[1] - 0x20
         confirmed, what = False, 'not reproduced: %s' % lab
         key = 'C12/svg'
@@ -450,7 +504,12 @@ def semantic_problem(doc, v, n, env, margin, layers, with_image, img):
             return 'layer %d has %d sub-paths for %d dark modules' % (li, len(subs), len(want))
         got = set()
         for t in subs:
-            x0, y0, x1, y1 = path_bbox(t)
+            try:
+                x0, y0, x1, y1 = path_bbox(t)
+            except (ValueError, IndexError) as e:
+                return 'layer %d: sub-path %r is not readable path data (%s)' % (li, t[:24], e)
+            if not re.match(r'^[MmLlHhVvAaZz0-9eE .,+-]*$', t):
+                return 'layer %d: sub-path %r contains characters that are not path data' % (li, t[:24])
             got.add((int((y0 + y1) / 2) - margin, int((x0 + x1) / 2) - margin))
         if got != set(want):
             miss = sorted(set(want) - got)[:2]
@@ -478,14 +537,17 @@ def main(argv):
             (v, 1, [(3, True), (4, False), (5, True)], False, 0), (v, 4, [(0, True)], True, 6), (v, 0, [], True, 3),
             (v, rng.randrange(0, 9), [(rng.randrange(6), bool(rng.randrange(2))) for _ in range(rng.randrange(1, 4))], True, 8),
         ]
+    # coordinates with three and four digits (hand-written number formatting breaks at 100 / 1000)
+    cells += [(0, 95, [(0, False)], False, 0), (0, 990, [(rng.randrange(1, 6), True), (0, False)], True, 3)]
     if chk.tier == 'thorough':
         cells.append((39, 4, [(0, False)], True, 4))
+        cells.append((20, 0, [(0, False), (3, True)], False, 0))
         for m in range(0, 9):
             cells.append((0, m, [(rng.randrange(6), True)], False, 0))
     native_path = chk.ov.native(chk.features)
     chk.jobs(job_cell, [c + (chk.seed,) for c in cells], extra={'native': native_path})
     chk.cov['cells'] = len(cells)
-    chk.bounds += ['%d cells: versions %s, margins 0..8, layer lists of length 0..3 over the 6 built-in shapes with and without per-layer colour, image strings of 3..8 ASCII characters' % (len(cells), [v + 1 for v in vs]),
+    chk.bounds += ['%d cells: versions %s, margins 0..8 and 95, 990 (coordinates of 3 and 4 digits), layer lists of length 0..3 over the 6 built-in shapes with and without per-layer colour, image strings of 3..8 ASCII characters' % (len(cells), [v + 1 for v in vs]),
                    'within a cell: every module value, every RGBA byte of every colour and every image character (7-bit) symbolic']
     chk.outside += ['non-ASCII image characters (never markup-significant)', 'custom Shape::Command callbacks', 'the decimal text of the image geometry numbers (C18 checks their values)',
                     'Color given as a string by the caller (inserted verbatim by design)']
